@@ -46,12 +46,13 @@ type fsNode struct {
 }
 
 type simFS struct {
-	w      *World
-	nodes  map[string]*fsNode
-	cwd    string
-	log    []FSAccess
-	faults []FSFault
-	room   int64 // remaining bytes, -1 unlimited
+	w         *World
+	nodes     map[string]*fsNode
+	cwd       string
+	log       []FSAccess
+	writeRecs int
+	faults    []FSFault
+	room      int64 // remaining bytes, -1 unlimited
 }
 
 var errnoByName = map[string]syscall.Errno{
@@ -128,7 +129,12 @@ func (f *simFS) record(op, path string, n int, err error) {
 	if err != nil {
 		a.Err = err.Error()
 	}
-	if len(f.log) < 5000 {
+	// chunk-level write records are bounded (a small chunk size makes many of them); every other
+	// record (open, close, mkdir, stat, read, errors) is always kept: oracles rely on them
+	if op != "write" || err != nil || f.writeRecs < 4000 {
+		if op == "write" {
+			f.writeRecs++
+		}
 		f.log = append(f.log, a)
 	}
 }
@@ -439,6 +445,24 @@ func WriteFile(name string, data []byte, perm os.FileMode) error {
 	n.writers--
 	f.record("close-w", p, off, werr)
 	return werr
+}
+
+// Chdir changes the simulated working directory.
+func Chdir(dir string) error {
+	f := fsys()
+	p := f.abs(dir)
+	n, ok := f.nodes[p]
+	if !ok {
+		return pathErr("chdir", dir, syscall.ENOENT)
+	}
+	if !n.dir {
+		return pathErr("chdir", dir, syscall.ENOTDIR)
+	}
+	f.cwd = p
+	if W != nil {
+		W.logEvent("chdir", p)
+	}
+	return nil
 }
 
 func Getwd() (string, error) {
